@@ -18,6 +18,7 @@ import (
 	"os/exec"
 	"path/filepath"
 	"reflect"
+	"runtime/debug"
 	"sort"
 	"strings"
 	"sync"
@@ -208,6 +209,8 @@ func walkAST(m *yang.Module, res *goRes) {
 
 // child reads one case per line and answers one result per line.
 func child() {
+	// a runaway recursion is fatal either way; a 64 MB limit makes it fatal quickly
+	debug.SetMaxStack(64 << 20)
 	in := bufio.NewReaderSize(os.Stdin, 1<<20)
 	out := bufio.NewWriterSize(os.Stdout, 1<<20)
 	for {
@@ -626,6 +629,7 @@ func caseKey(c tcase) string {
 }
 
 var childFlag = flag.Bool("child", false, "run as the crash-isolated Go worker")
+var dumpFlag = flag.String("dump", "", "print the generated case with this id as JSON and exit")
 
 func main() {
 	f := lib.ParseFlags()
@@ -643,9 +647,9 @@ func main() {
 	cases = append(cases, corpus...)
 	exh := exhaustiveCases()
 	cases = append(cases, exh...)
-	nRandom, nOdd := 6000, 600
+	nRandom, nOdd, nChain := 6000, 600, 2000
 	if f.Thorough() {
-		nRandom, nOdd = 150000, 8000
+		nRandom, nOdd, nChain = 150000, 8000, 40000
 	}
 	shards := 64
 	rnd := make([][]tcase, shards)
@@ -663,6 +667,9 @@ func main() {
 			for i := 0; i < m; i++ {
 				rnd[s] = append(rnd[s], oddCase(r, fmt.Sprintf("odd/%d/%d", s, i)))
 			}
+			for i := 0; i < nChain/shards; i++ {
+				rnd[s] = append(rnd[s], chainCase(r, fmt.Sprintf("chain/%d/%d", s, i)))
+			}
 		}(s)
 	}
 	wg.Wait()
@@ -670,29 +677,14 @@ func main() {
 		cases = append(cases, l...)
 	}
 
-	// requests for the model and the specification
-	reqs := make([]string, len(cases))
-	sreqs := make([]string, len(cases))
-	wireErr := make([]error, len(cases))
-	for i, c := range cases {
-		w, err := wire(c)
-		wireErr[i] = err
-		reqs[i] = "types " + w
-		sreqs[i] = "spec.types " + w
-	}
-	var ans, sans []string
-	var gos []goRes
-	var e1, e2 error
-	wg.Add(3)
-	go func() { defer wg.Done(); ans, e1 = lib.ParBatch(f.Driver, reqs, f.Procs) }()
-	go func() { defer wg.Done(); sans, e2 = lib.ParBatch(f.Driver, sreqs, f.Procs) }()
-	go func() { defer wg.Done(); gos = runAllGo(cases, f.Procs) }()
-	wg.Wait()
-	if e1 != nil {
-		lib.Fatal("driver: %v", e1)
-	}
-	if e2 != nil {
-		lib.Fatal("driver (spec): %v", e2)
+	if *dumpFlag != "" {
+		for _, c := range cases {
+			if c.ID == *dumpFlag {
+				b, _ := json.MarshalIndent(c, "", " ")
+				fmt.Println(string(b))
+			}
+		}
+		return
 	}
 
 	distinct := lib.NewDistinct()
@@ -701,99 +693,138 @@ func main() {
 	groupStats := map[string]int64{}
 	noClaimWhy := map[string]int64{}
 	var leaves, viaTypedef, bindErrs, specT, specErr, specNo int64
-	for i, c := range cases {
-		g := gos[i]
-		if wireErr[i] != nil {
-			// the text does not parse: outside the resolver model; the Go side must agree
-			status["unparseable"]++
-			if g.ParseErr == "" && g.Panic == "" {
-				res.AddDisagreement(lib.Disagreement{Kind: "correspondence", Input: c, Go: g, SpecVerdict: "",
-					What: "yang.Parse rejects a file that Modules.Parse accepts: " + wireErr[i].Error(), Replay: c})
-			}
-			continue
-		}
-		m := parseModel(ans[i])
-		status[m.Status]++
-		spec := parseSpec(sans[i])
-		// measured coverage
-		nt := false
-		for _, k := range m.Order {
-			leaves++
-			l := m.Leaves[k]
-			if strings.HasPrefix(l.Dump, "{k=") {
-				kind := l.Dump[3:strings.Index(l.Dump, ";")]
-				if !strings.Contains(l.Dump, ";n="+lib.HexS(kind)+";") {
-					viaTypedef++
-					nt = true
-				}
-			}
-			for _, e := range l.Errs {
-				if isBindingErr(errClass(e)) {
-					bindErrs++
-					nt = true
-					break
-				}
-			}
-		}
-		grp := strings.SplitN(c.ID, "/", 2)[0]
-		for _, v := range spec {
-			switch {
-			case v == "ERR":
-				specErr++
-				groupStats[grp+"_spec_error_required"]++
-			case strings.HasPrefix(v, "NOCLAIM"):
-				specNo++
-				groupStats[grp+"_spec_no_claim"]++
-				noClaimWhy[strings.TrimPrefix(v, "NOCLAIM:")]++
-			default:
-				specT++
-				groupStats[grp+"_spec_type"]++
-			}
-		}
-		if distinct.Add(caseKey(c)) && nt {
-			nontrivial++
-		}
-		if i%(len(cases)/7+1) == 0 {
-			res.AddSample(map[string]any{"case": c.ID, "files": len(c.Files), "model_status": m.Status, "leaves": len(m.Order), "go_process_errors": len(g.P1)})
-		}
-		diffs := compare(g, m)
-		sbad := specCheck(g, spec)
-		if len(diffs) == 0 && len(sbad) == 0 {
-			continue
+	evaluated := 0
+	const batchSize = 3000
+	for lo := 0; lo < len(cases); lo += batchSize {
+		hi := lo + batchSize
+		if hi > len(cases) {
+			hi = len(cases)
 		}
 		if len(res.Disagreements) >= 50 {
-			res.Count("disagreements_not_examined", 1)
-			continue
+			res.Count("cases_not_run_after_50_disagreements", int64(len(cases)-lo))
+			break
 		}
-		verdict := "holds"
-		if len(sbad) > 0 {
-			verdict = "violates"
+		batch := cases[lo:hi]
+		evaluated = hi
+		// requests for the model and the specification
+		reqs := make([]string, len(batch))
+		sreqs := make([]string, len(batch))
+		wireErr := make([]error, len(batch))
+		for i, c := range batch {
+			w, err := wire(c)
+			wireErr[i] = err
+			reqs[i] = "types " + w
+			sreqs[i] = "spec.types " + w
 		}
-		kind := "correspondence"
-		what := ""
-		switch {
-		case g.Panic != "":
-			kind = "crash"
-			verdict = "violates"
-			what = "goyang crashed or hung: " + g.Panic
-		case len(diffs) > 0:
-			what = "goyang and the model differ: " + strings.Join(head(diffs, 3), " ;; ")
-			if len(sbad) > 0 {
-				what += " || specification: " + strings.Join(head(sbad, 2), " ;; ")
+		var ans, sans []string
+		var gos []goRes
+		var e1, e2 error
+		wg.Add(3)
+		go func() { defer wg.Done(); ans, e1 = lib.ParBatch(f.Driver, reqs, f.Procs) }()
+		go func() { defer wg.Done(); sans, e2 = lib.ParBatch(f.Driver, sreqs, f.Procs) }()
+		go func() { defer wg.Done(); gos = runAllGo(batch, f.Procs) }()
+		wg.Wait()
+		if e1 != nil {
+			lib.Fatal("driver: %v", e1)
+		}
+		if e2 != nil {
+			lib.Fatal("driver (spec): %v", e2)
+		}
+		for i, c := range batch {
+			g := gos[i]
+			if wireErr[i] != nil {
+				// the text does not parse: outside the resolver model; the Go side must agree
+				status["unparseable"]++
+				if g.ParseErr == "" && g.Panic == "" {
+					res.AddDisagreement(lib.Disagreement{Kind: "correspondence", Input: c, Go: g, SpecVerdict: "",
+						What: "yang.Parse rejects a file that Modules.Parse accepts: " + wireErr[i].Error(), Replay: c})
+				}
+				continue
 			}
-		default:
-			kind = "spec"
-			what = "goyang's result (equal to the model's) violates the specification: " + strings.Join(head(sbad, 3), " ;; ")
+			m := parseModel(ans[i])
+			status[m.Status]++
+			spec := parseSpec(sans[i])
+			// measured coverage
+			nt := false
+			for _, k := range m.Order {
+				leaves++
+				l := m.Leaves[k]
+				if strings.HasPrefix(l.Dump, "{k=") {
+					kind := l.Dump[3:strings.Index(l.Dump, ";")]
+					if !strings.Contains(l.Dump, ";n="+lib.HexS(kind)+";") {
+						viaTypedef++
+						nt = true
+					}
+				}
+				for _, e := range l.Errs {
+					if isBindingErr(errClass(e)) {
+						bindErrs++
+						nt = true
+						break
+					}
+				}
+			}
+			grp := strings.SplitN(c.ID, "/", 2)[0]
+			for _, v := range spec {
+				switch {
+				case v == "ERR":
+					specErr++
+					groupStats[grp+"_spec_error_required"]++
+				case strings.HasPrefix(v, "NOCLAIM"):
+					specNo++
+					groupStats[grp+"_spec_no_claim"]++
+					noClaimWhy[strings.TrimPrefix(v, "NOCLAIM:")]++
+				default:
+					specT++
+					groupStats[grp+"_spec_type"]++
+				}
+			}
+			if distinct.Add(caseKey(c)) && nt {
+				nontrivial++
+			}
+			if (lo+i)%(len(cases)/7+1) == 0 {
+				res.AddSample(map[string]any{"case": c.ID, "files": len(c.Files), "model_status": m.Status, "leaves": len(m.Order), "go_process_errors": len(g.P1)})
+			}
+			diffs := compare(g, m)
+			sbad := specCheck(g, spec)
+			if len(diffs) == 0 && len(sbad) == 0 {
+				continue
+			}
+			if len(res.Disagreements) >= 50 {
+				res.Count("disagreements_not_examined", 1)
+				continue
+			}
+			verdict := "holds"
+			if len(sbad) > 0 {
+				verdict = "violates"
+			}
+			kind := "correspondence"
+			what := ""
+			switch {
+			case g.Panic != "":
+				kind = "crash"
+				verdict = "violates"
+				what = "goyang crashed or hung: " + g.Panic
+			case len(diffs) > 0:
+				what = "goyang and the model differ: " + strings.Join(head(diffs, 3), " ;; ")
+				if len(sbad) > 0 {
+					what += " || specification: " + strings.Join(head(sbad, 2), " ;; ")
+				}
+			default:
+				kind = "spec"
+				what = "goyang's result (equal to the model's) violates the specification: " + strings.Join(head(sbad, 3), " ;; ")
+			}
+			res.AddDisagreement(lib.Disagreement{Kind: kind, Input: c, Go: g, Model: ans[i], SpecVerdict: verdict, What: trunc(what, 1500), Replay: c})
 		}
-		res.AddDisagreement(lib.Disagreement{Kind: kind, Input: c, Go: g, Model: ans[i], SpecVerdict: verdict, What: trunc(what, 1500), Replay: c})
 	}
-	res.Evaluations = int64(len(cases))
+	res.Evaluations = int64(evaluated)
 	res.DistinctNontrivial = nontrivial
 	res.Rule = "distinct schema sets (by content) in which at least one leaf resolves through a typedef (resolved name differs from the base kind) or is rejected with a binding error (unknown type, unknown prefix, cycle); every case = load all files, Process() twice, dump Entry.Type / DefaultValues / Errors of every leaf entry (Dir, rpc input/output, augments) and Type.YangType of every AST leaf, compared with the model's per-statement answer and with the specification's binding + inheritance"
 	res.Distribution["corpus_cases"] = len(corpus)
 	res.Distribution["exhaustive_binding_cases"] = len(exh)
 	res.Distribution["random_cases"] = nRandom / shards * shards
 	res.Distribution["odd_cases"] = nOdd / shards * shards
+	res.Distribution["chain_depth5_cases"] = nChain / shards * shards
 	res.Distribution["model_status"] = status
 	res.Distribution["spec_verdicts_by_group"] = groupStats
 	res.Distribution["spec_no_claim_reasons"] = noClaimWhy
